@@ -69,6 +69,7 @@ PROPS = {
             "Xet.Merkle.C06_hex_injective",
             "Xet.Merkle.C06_hashedwrite_streaming",
             "Xet.Merkle.C06_hashedwrite_streaming_faulty",
+            "Xet.Merkle.C06_hashedwrite_retry_exact",
         ],
         "suites": ["hashes", "xorb_validate"],
         "level_text": "Theorems for every chunk list and every choice of hash primitives: producer xorb hash = validators' route, merge "
